@@ -21,6 +21,19 @@ type State struct {
 	ghost  map[string]Value
 	pc     *Term
 	wlog   *[]WriteRec // when non-nil, heap writes are logged (loop dry runs)
+	// heaps havocked by an unknown call but not read or written since: a fresh symbol is made
+	// only when one of them is first used (an unknown call can reach thousands of heaps by type,
+	// almost none of which the function under proof ever touches)
+	lazy map[string]bool
+	// an unknown call that can reach everything (empty interface, closure) was made: every Go
+	// heap not in use yet is arbitrary from then on
+	lazyAll bool
+}
+
+const lazyAllName = "$lazyAll"
+
+func isGoHeap(name string) bool {
+	return strings.HasPrefix(name, "H!") || strings.HasPrefix(name, "E!") || strings.HasPrefix(name, "M!")
 }
 
 func newState() *State {
@@ -44,6 +57,13 @@ func (s *State) clone() *State {
 	for k, v := range s.ghost {
 		n.ghost[k] = v
 	}
+	n.lazyAll = s.lazyAll
+	if len(s.lazy) > 0 {
+		n.lazy = make(map[string]bool, len(s.lazy))
+		for k := range s.lazy {
+			n.lazy[k] = true
+		}
+	}
 	return n
 }
 
@@ -53,7 +73,33 @@ func (c *Ctx) heap(s *State, name string, sort Sort) *Term {
 	if t, ok := s.heaps[name]; ok {
 		return t
 	}
+	if s.lazy[name] || (s.lazyAll && isGoHeap(name)) {
+		// havocked earlier by an unknown call: arbitrary from here on
+		t := c.fresh("hv", sort)
+		s.heaps[name] = t
+		s.hsorts[name] = sort
+		delete(s.lazy, name)
+		return t
+	}
 	return c.heap0(s, name, sort)
+}
+
+// lazyHavoc marks a heap as havocked without materialising a symbol for it.
+func (c *Ctx) lazyHavoc(s *State, name string, sort Sort) {
+	if _, ok := s.heaps[name]; ok {
+		c.setHeap(s, name, c.fresh("hv", sort), nil)
+		return
+	}
+	if s.lazy == nil {
+		s.lazy = map[string]bool{}
+	}
+	s.lazy[name] = true
+	if _, ok := s.hsorts[name]; !ok {
+		s.hsorts[name] = sort
+	}
+	if s.wlog != nil {
+		*s.wlog = append(*s.wlog, WriteRec{name, nil, s.pc})
+	}
 }
 
 var heapInit = map[*Ctx]map[string]*Term{}
@@ -82,6 +128,7 @@ func (c *Ctx) heap0(s *State, name string, sort Sort) *Term {
 func (c *Ctx) setHeap(s *State, name string, t *Term, ref *Term) {
 	s.heaps[name] = t
 	s.hsorts[name] = t.Sort
+	delete(s.lazy, name)
 	if s.wlog != nil {
 		*s.wlog = append(*s.wlog, WriteRec{name, ref, s.pc})
 	}
@@ -259,7 +306,20 @@ func (c *Ctx) mergeStates(a, b *State) *State {
 	d := a.pc
 	out := a.clone()
 	out.pc = c.define("pc", Or(a.pc, b.pc))
-	for k, av := range a.vars {
+	// deterministic order (declaration position, then name): the symbol numbering of the
+	// generated query must not depend on map iteration order, or solver behaviour varies run to run
+	vkeys := make([]types.Object, 0, len(a.vars))
+	for k := range a.vars {
+		vkeys = append(vkeys, k)
+	}
+	sort.Slice(vkeys, func(i, j int) bool {
+		if vkeys[i].Pos() != vkeys[j].Pos() {
+			return vkeys[i].Pos() < vkeys[j].Pos()
+		}
+		return vkeys[i].Name() < vkeys[j].Name()
+	})
+	for _, k := range vkeys {
+		av := a.vars[k]
 		bv, ok := b.vars[k]
 		if !ok {
 			delete(out.vars, k) // declared in only one branch: out of scope after the join
@@ -295,18 +355,35 @@ func (c *Ctx) mergeStates(a, b *State) *State {
 		bt, bok := b.heaps[k]
 		srt := a.hsorts[k]
 		if !aok {
-			at = c.heap0(a, k, srt)
+			at = c.heap(a, k, srt) // entry value, or a fresh one if havocked lazily on this path
 		}
 		if !bok {
-			bt = c.heap0(b, k, srt)
+			bt = c.heap(b, k, srt)
 		}
 		if at == bt {
 			out.heaps[k] = at
 			continue
 		}
 		out.heaps[k] = c.define("mh", Ite(d, at, bt))
+		delete(out.lazy, k)
 	}
-	for k, av := range a.ghost {
+	// a heap havocked lazily on either path and used on neither stays lazily havocked
+	out.lazyAll = a.lazyAll || b.lazyAll
+	for k := range b.lazy {
+		if _, ok := out.heaps[k]; !ok {
+			if out.lazy == nil {
+				out.lazy = map[string]bool{}
+			}
+			out.lazy[k] = true
+		}
+	}
+	gkeys := make([]string, 0, len(a.ghost))
+	for k := range a.ghost {
+		gkeys = append(gkeys, k)
+	}
+	sort.Strings(gkeys)
+	for _, k := range gkeys {
+		av := a.ghost[k]
 		bv, ok := b.ghost[k]
 		if !ok {
 			continue
